@@ -88,7 +88,7 @@ func freshLock(t *testing.T, sp FreshSpec) (cluster.Lock, []*k1.PrivateKey, [][]
 		r.Read(a)
 		opts = append(opts, cluster.WithLegacyVAddrs(addrOf(a[:20]), addrOf(a[20:])))
 	}
-	lock, p2pKeys, shares := cluster.NewForT(t, sp.DV, sp.K, sp.N, sp.Seed, r, opts...)
+	lock, p2pKeys, shares := cluster.NewForT(t, sp.DV, sp.K, sp.N, safeSeed(sp.Seed, sp.N), r, opts...)
 
 	// Deposit data (hashed from v1.6 on).
 	if vi >= vnum("v1.6.0") {
